@@ -100,6 +100,13 @@ def gen(seed):
            [e for e in plan if e.get('fn') in ('thread_poke', 'thread_rename')] + \
            [e for e in plan if e.get('fn') == 'thread_end'] + \
            [e for e in plan if e['a'] != 'call']
+    if seed % 6 == 2:
+        starts = [e for e in plan if e.get('fn') == 'thread_start']
+        if starts:
+            e0 = starts[(seed // 6) % len(starts)]
+            e0['end_on_sleep'] = True
+            plan = [e for e in plan if not (e.get('fn') == 'thread_end'
+                                            and e.get('tname') == e0['tname'])]
     return {'property': ID, 'seed': seed, 'world': world, 'plan': plan, 'opt': opt,
             'ignore': ign, 'sched': {'prng': seed},
             'knobs': {'p_reuse': rng.choice([0.0, 0.5, 1.0, 1.0])}}
@@ -136,10 +143,20 @@ def expected_reports(spec, res, tw):
                 poked.setdefault(tn, i)
         if ev[1] == 'fault' and ev[2] == 'call:thread_start':
             started.setdefault(plan[ev[3]]['tname'], i)
-        elif ev[1] == 'fault' and ev[2] == 'call:thread_end':
+        elif ev[1] == 'fault' and ev[2] in ('call:thread_end', 'call:thread_end_on_sleep'):
             tn = plan[ev[3]]['tname']
             if tn in started and tn not in ended:
                 ended[tn] = i
+                if ev[2] == 'call:thread_end_on_sleep':
+                    # the thread went away because the RUNNER slept.  If nothing of the world
+                    # happens between that and the end of the test's bracket, the runner slept
+                    # after the test was over: the thread was still running when the test ended
+                    for j in range(i + 1, len(events)):
+                        if events[j][1] == 'fault':
+                            continue
+                        if events[j][1] in ('test.ran', 'test.debugged'):
+                            ended[tn] = j + 0.5
+                        break
     out = []
     shadow = {}   # (tid, repr) -> kind of the thread that held the same ident at test start
     for oc in occs:
@@ -192,7 +209,26 @@ def run(spec, ctx):
     TS.current_frames = tw.current_frames
     TS.threading = threadsim.ThreadingSeam(tw)
     TS.sys = threadsim.SysSeam(tw)
-    calls = {'thread_start': tw.start, 'thread_end': tw.end, 'thread_poke': tw.poke,
+    def thread_start(e):
+        tw.start(e)
+        if e.get('end_on_sleep'):
+            # a thread about to end by itself (a Timer that fires, a worker told to stop but not
+            # joined): it is gone as soon as the main thread sleeps - which the runner has no
+            # reason to do between a test's end and its leak report
+            idx = [i for i, x in enumerate(spec['plan'])
+                   if x.get('fn') == 'thread_start' and x.get('tname') == e['tname']][0]
+            clock = core.CURRENT_ENV.clock
+            if not hasattr(clock, 'sleep_hooks'):
+                clock.sleep_hooks = []
+
+            def hook(dt):
+                clock.sleep_hooks.remove(hook)
+                rec = tw.reg.get(e['tname'])
+                if rec is not None and rec['alive']:
+                    simrt.rt.emit([0, 'fault', 'call:thread_end_on_sleep', idx, 0])
+                    tw.end(e)
+            clock.sleep_hooks.append(hook)
+    calls = {'thread_start': thread_start, 'thread_end': tw.end, 'thread_poke': tw.poke,
              'thread_rename': tw.rename}
     orig_install = simrt.install
 
